@@ -26,9 +26,17 @@ def main():
     for p in props:
         cid = p["id"]
         path = os.path.join(VERIF, "checks", cid.lower() + ".py")
-        if os.path.exists(path) and cid in LEVEL:
+        if os.path.exists(path):
             mod = importlib.import_module("checks." + cid.lower())
-            text, ref, note = LEVEL[cid]
+            if not getattr(mod, "REGISTERED", True):
+                na.append({"property_id": cid, "reason": NA.get(cid, NOT_YET)})
+                continue
+            if cid in LEVEL:
+                text, ref, note = LEVEL[cid]
+            else:
+                text = (mod.__doc__ or "").strip().replace("\n", " ")
+                ref = "3." + cid
+                note = "; ".join(getattr(mod, "ASSUMPTIONS", []))
             checks.append({
                 "property_id": cid,
                 "quick_cmd": "./vt check %s --tier quick" % cid,
